@@ -240,10 +240,15 @@ def d1(ctx, prog, eps):
     return total
 
 
-def d2(ctx, prog):
+def d2(ctx, prog, eps=()):
     n = 0
+    seen = set()
+    helper_keys = {h for f in eps for h in getattr(f, 'inlined_helpers', [])}
     for modname in MODS:
-        for f in prog.funcs_in(modname):
+        for f in list(prog.funcs_in(modname)):
+            if f.key in helper_keys:
+                continue          # judged inlined at its call sites
+            f = next((e for e in eps if e.key == f.key), f)
             for c in ast.walk(f.node):
                 if isinstance(c, ast.Call) and norm(c.func) == 'max' and any('dtype' in norm(a) for a in c.args):
                     n += 1
@@ -326,7 +331,8 @@ def d4(ctx, prog):
     inner = [g for g in prog.funcs if g.parent is f]
     if len(inner) != 1:
         raise AnalysisError('preprocess decorator: inner wrapper not found')
-    g = inner[0]
+    from .. import inline
+    g = inline.inlined(prog, inner[0])
     tests = [norm(n.test).replace(' ', '') for n in ast.walk(g.node) if isinstance(n, ast.If) and any(isinstance(b, ast.Raise) for b in n.body)]
     p = g.params[0]
     want = {f'{p}.ndim!=2': 'refuses non 2-D input', 'result.ndim!=2': 'refuses non 2-D output', f'result.shape[0]!={p}.shape[0]': 'refuses a changed number of traces'}
@@ -407,7 +413,9 @@ def d5(ctx, prog):
             ctx.pattern(ok, 'C18-D5', key, f'slice frame becomes `{norm(v)[:60]}`', 'slice frame -> range(start or 0, stop, step or 1)', f.where(node))
     # the stored frames are what indexes the sample axis
     uses = 0
+    from .. import inline
     for g in prog.funcs_in(HO):
+        g = inline.inlined(prog, g)
         for sub in ast.walk(g.node):
             if isinstance(sub, ast.Subscript) and isinstance(sub.slice, ast.Tuple) and len(sub.slice.elts) == 2 and isinstance(sub.slice.elts[0], ast.Slice) \
                     and norm(sub.slice.elts[1]) in ('self.frame_1', 'self.frame_2', 'frame_1', 'frame_2'):
@@ -422,10 +430,11 @@ def run(ctx, prog):
     ctx.rule('C18-D3', 'no reduction / selection / transform along the trace axis outside the documented batch-statistics set')
     ctx.rule('C18-D4', 'decorator contract: 2-D in, 2-D out, same first dimension; metaclass wraps every __call__')
     ctx.assume('pair order / duplication of the combination modes and the time-frequency formulas are value properties and not decided')
-    eps = entry_points(prog)
+    from .. import inline
+    eps = [inline.inlined(prog, f) for f in entry_points(prog)]
     ctx.unit('entry_points', [f.key for f in eps])
     n1 = d1(ctx, prog, eps)
-    n2 = d2(ctx, prog)
+    n2 = d2(ctx, prog, eps)
     n3 = d3(ctx, prog, eps)
     d4(ctx, prog)
     ctx.rule('C18-D5', 'frame pass-through: list / array frames are stored as given (or an order-preserving copy), slice -> range(start or 0, stop, step or 1), int -> [int]; stored frames index the sample axis')
